@@ -65,6 +65,8 @@ class Ctx:
         self.violations = []
         self.family_counts = collections.Counter()
         self.states = set()
+        self.extra_lines = {}       # anchored lines reached in child processes (file -> set of lines)
+        self.extra_totals = {}
         self._family = None
         self._idx = None
         self._case_info = None
@@ -126,6 +128,8 @@ class Ctx:
             "samples": list(self.samples.values()),
             "violations": self.violations,
             "families": dict(self.family_counts),
+            "extra_lines": {k: sorted(v) for k, v in self.extra_lines.items()},
+            "extra_totals": dict(self.extra_totals),
         }
 
 
